@@ -159,19 +159,45 @@ theorem EG.addProcs {s s1 : Sys} (h : EG s) (ho : s1.obs = s.obs) (ha : s1.admit
 
 /-! ### steps that preserve every group -/
 
+/-- the shape of such a step: records of observations, `starts`, `admitted` untouched; the
+process table only grows, by fresh processes that are no task body, ingest provisioner, ingest
+supervisor or telescope -/
+structure Shape (s s1 : Sys) : Prop where
+  obs : s1.obs = s.obs
+  starts : s1.starts = s.starts
+  admitted : s1.admitted = s.admitted
+  clfin : s1.cl.finished = s.cl.finished
+  newp : ∃ new, s1.procs = s.procs ++ new ∧ ∀ q ∈ new, q.alive = true ∧ q.pc = 0 ∧
+    q.k.isDW = false ∧ q.k.isPI = false ∧ q.k.isAI = false ∧ q.k.isTel = false
+
+theorem Shape.refl (s : Sys) : Shape s s := ⟨rfl, rfl, rfl, rfl, [], by simp, by simp⟩
+
+theorem Shape.trans {a b c : Sys} (h1 : Shape a b) (h2 : Shape b c) : Shape a c := by
+  obtain ⟨n1, e1, f1⟩ := h1.newp
+  obtain ⟨n2, e2, f2⟩ := h2.newp
+  refine ⟨h2.obs.trans h1.obs, h2.starts.trans h1.starts, h2.admitted.trans h1.admitted,
+    h2.clfin.trans h1.clfin, n1 ++ n2,
+    by rw [e2, e1, List.append_assoc], ?_⟩
+  intro q hq
+  rcases List.mem_append.mp hq with hq | hq
+  · exact f1 q hq
+  · exact f2 q hq
+
 structure Pres (s s1 : Sys) : Prop where
   pre : s.procs <+: s1.procs
   pw : PW s → PW s1
   ci : ∀ U, PW s → CI s U → CI s1 U
   dg : PW s → DG s → DG s1
   eg : PW s → EG s → EG s1
+  shape : Shape s s1
 
 theorem Pres.refl (s : Sys) : Pres s s :=
-  ⟨List.prefix_refl _, fun h => h, fun _ _ h => h, fun _ h => h, fun _ h => h⟩
+  ⟨List.prefix_refl _, fun h => h, fun _ _ h => h, fun _ h => h, fun _ h => h, Shape.refl s⟩
 
 theorem Pres.trans {a b c : Sys} (h1 : Pres a b) (h2 : Pres b c) : Pres a c :=
   ⟨h1.pre.trans h2.pre, fun h => h2.pw (h1.pw h), fun U hp h => h2.ci U (h1.pw hp) (h1.ci U hp h),
-   fun hp h => h2.dg (h1.pw hp) (h1.dg hp h), fun hp h => h2.eg (h1.pw hp) (h1.eg hp h)⟩
+   fun hp h => h2.dg (h1.pw hp) (h1.dg hp h), fun hp h => h2.eg (h1.pw hp) (h1.eg hp h),
+   h1.shape.trans h2.shape⟩
 
 /-- a change of the cluster pools / task records that keeps the tables' shape -/
 theorem Pres.frame {s s1 : Sys} (hcl : ClQuiet s.cl s1.cl) (ht : TaskMono s.tasks s1.tasks)
@@ -182,7 +208,8 @@ theorem Pres.frame {s s1 : Sys} (hcl : ClQuiet s.cl s1.cl) (ht : TaskMono s.task
    fun _ _ h => h.frame hcl ht (ObsMonoS.of_eq ho) (fun _ _ => by rw [hp]),
    fun _ h => h.frame hcl.running hcl.finished hs ha (fun _ _ => by rw [hp])
      (fun _ _ hq => by rw [hp]; exact hq),
-   fun _ h => h.frame ho hd (fun _ _ => by rw [hp])⟩
+   fun _ h => h.frame ho hd (fun _ _ => by rw [hp]),
+   ⟨ho, hs, hd, hcl.finished, [], by simp [hp], by simp⟩⟩
 
 theorem Pres.core {s s1 : Sys} (e : Core8 s s1) : Pres s s1 :=
   Pres.frame (ClQuiet.of_eq e.cl) (TaskMono.of_eq e.tasks) e.obs e.procs e.nextPid e.starts e.active
@@ -190,7 +217,8 @@ theorem Pres.core {s s1 : Sys} (e : Core8 s s1) : Pres s s1 :=
 
 theorem Pres.spawn (s : Sys) (k : PK) (now : Time) (hk : k.neutral) : Pres s (s.spawn k now).1 := by
   obtain ⟨k1, k2, k3, k4, k5⟩ := hk
-  refine ⟨by simp, fun h => h.spawn k now, ?_, ?_, ?_⟩
+  refine ⟨by simp, fun h => h.spawn k now, ?_, ?_, ?_,
+    ⟨rfl, rfl, rfl, rfl, _, spawn_procs s k now, by simp [k2, k3, k4, k5]⟩⟩
   · intro U _ h
     exact h.addProcs (ClQuiet.refl _) (TaskMono.refl _) (fun _ h => h) _ (spawn_procs s k now)
       (by simp [k1, k3])
